@@ -5,6 +5,7 @@ package interp
 // Channels, select, sync primitives and timers are implemented here.
 
 import (
+	"os"
 	"fmt"
 	"go/token"
 	"go/types"
@@ -36,6 +37,7 @@ type thread struct {
 	done    bool
 	name    string
 	quiesceWaiter bool
+	where   string // debugging: call stack at the last blocking point (GOSMT_BLOCKED=1)
 }
 
 type scheduler struct {
@@ -236,10 +238,23 @@ func (s *scheduler) blockUntil(ready func() bool) {
 	self := s.cur
 	for !ready() {
 		self.blocked = ready
+		if blockedOn && s.i.curFr != nil {
+			w := ""
+			for fr, n := s.i.curFr, 0; fr != nil && n < 8; fr, n = fr.caller, n+1 {
+				pos := token.NoPos
+				if fr.cur != nil {
+					pos = fr.cur.Pos()
+				}
+				w += "\n\t\t" + fr.fn.String() + loc(fr.fn.Prog.Fset, pos)
+			}
+			self.where = w
+		}
 		s.reschedule(self, false)
 	}
 	self.blocked = nil
 }
+
+var blockedOn = os.Getenv("GOSMT_BLOCKED") != ""
 
 func (s *scheduler) spawn(i *interpreter, fn value, args []value, pos token.Pos) {
 	t := &thread{id: len(s.threads), wake: make(chan bool, 1)}
@@ -550,12 +565,24 @@ func (i *interpreter) doSelect(instr *ssa.Select, fr *frame) value {
 				if sc.ch.cap > 0 {
 					sc.ch.buf = append(sc.ch.buf, sc.v)
 				} else {
-					// receiver waiting: hand the value over via a pendingSend
+					// a receiver is waiting: offer the value via a pendingSend.  The receiver may be
+					// parked in a select of its own and take another case that became ready in the
+					// meantime; then the offer is withdrawn and the select starts over (a committed
+					// sender would hang where Go's does not).
 					ps := &pendingSend{v: sc.v}
 					sc.ch.senders = append(sc.ch.senders, ps)
-					s.blockUntil(func() bool { return ps.taken || sc.ch.closed })
+					s.blockUntil(func() bool { return ps.taken || sc.ch.closed || sc.ch.recvWaiting == 0 })
 					if !ps.taken {
-						panic(targetPanic{"send on closed channel"})
+						for j, q := range sc.ch.senders {
+							if q == ps {
+								sc.ch.senders = append(sc.ch.senders[:j:j], sc.ch.senders[j+1:]...)
+								break
+							}
+						}
+						if sc.ch.closed {
+							panic(targetPanic{"send on closed channel"})
+						}
+						return i.doSelect(instr, fr)
 					}
 				}
 			}
